@@ -120,7 +120,7 @@ func (w *worker) server(opt int, route string) *srvh.Server {
 		// a short cache life keeps the number of open files bounded; within one case (microseconds) the cache is still warm
 		fs := &app.FS{Root: w.root, AcceptByteRange: opt&1 != 0, Compress: opt&2 != 0, GenerateIndexPages: opt&8 != 0, CacheDuration: 40 * time.Millisecond}
 		if opt&4 != 0 {
-			fs.IndexNames = []string{"index.html"}
+			fs.IndexNames = []string{"index.htm", "index.html"} // the first name exists nowhere: the lookup has to move on
 		}
 		s.E.StaticFS("/", fs)
 	} else {
@@ -279,6 +279,25 @@ func (w *worker) exec(c *mc.Ctx, cs Case) {
 			}
 			continue
 		case isDir:
+			// a directory named with its trailing slash: with index names configured and an index file present the
+			// answer is that file; with generated index pages (and no index file to serve) it is the listing
+			if cs.Route == "static" && r.Method == "GET" && r.Range == "" && strings.HasSuffix(r.Path, "/") {
+				hasIndex := cs.Opt&4 != 0 && (rel == "" || strings.HasPrefix(rel, "sub"))
+				switch {
+				case hasIndex && m.Status != 200:
+					fail(i, "index-status", fmt.Sprintf("status %d for a directory whose configured index file exists, expected 200 with that file", m.Status))
+					return
+				case !hasIndex && cs.Opt&8 != 0:
+					got := m.Body
+					if v, _ := m.Get("Content-Encoding"); v == "gzip" {
+						got = gunzip(got)
+					}
+					if m.Status != 200 || !bytes.Contains(got, []byte("<html>")) || (strings.HasPrefix(rel, "noindex") && !bytes.Contains(got, []byte("x.txt"))) {
+						fail(i, "generated-index", fmt.Sprintf("status %d, body %q: expected the generated index page of the directory", m.Status, clip(got)))
+						return
+					}
+				}
+			}
 			if m.Status == 200 && cs.Opt&4 != 0 && cs.Route == "static" && (rel == "" || strings.HasPrefix(rel, "sub")) && r.Method == "GET" {
 				want := content("index.html")
 				if strings.HasPrefix(rel, "sub") {
